@@ -167,6 +167,36 @@ def scenario(ctx, rng, j):
                 g = f | (1 << free[j % len(free)])
                 judge(f'{L}:claim-flag-not-permitted', lock,
                       mk(R, pre, fields, f'{g:02x}'), False)
+    # the same builder call repeated at a later creation time: the deadline is
+    # creation time + timeout of THAT call (nothing remembered from the first)
+    if j % 4 == 0 and timeout >= 1:
+        later = NOW0 + 5000 + timeout
+        env.Clock.now = NOW0 + 5000
+        for nm, mk_lock, mk_wit in (
+                ('htlc_sha256', lambda: t_.make_htlc_sha256_lock(
+                    pR, pF, preimage=pre, **kw),
+                 lambda: t_.make_htlc_witness(F, wrong, fields, f_hex)),
+                ('ptlc', lambda: t_.make_ptlc_lock(pR, pF, **kw),
+                 lambda: t_.make_ptlc_refund_witness(F, fields, f_hex))):
+            env.Clock.now = NOW0 + 5000
+            lk2 = mk_lock()
+            ctx.evaluated()
+            for tt, want in ((later - 1, False), (later, True)):
+                env.Clock.now = tt
+                got = auth([mk_wit(), lk2], {**fields, 'timestamp': tt})
+                if (got is True) != want:
+                    ctx.violation(f'tlc-recreated-lock:{nm}', f'{nm} lock '
+                                  'built again 5000 s later: refund at its own '
+                                  f'deadline{"-1" if not want else ""} gives '
+                                  f'{got!r}', {'name': 'recreated', 'lock':
+                                               bytes(lk2), 'witness':
+                                               bytes(mk_wit()), 'fields':
+                                               fields, 't': tt, 'now': tt,
+                                               'want': want}, want,
+                                  repr(got)[:60])
+                else:
+                    ctx.mark_nontrivial(dg('recreated', nm, bytes(lk2), tt))
+        env.Clock.now = env.NOW0
     # PTLC
     lock = locks['ptlc']
     judge('ptlc:claim', lock, t_.make_ptlc_witness(R, fields, sigflags=f_hex),
